@@ -23,6 +23,8 @@ struct fiber_manager;
 #define FIBER_DETACH_WAIT_FOR_JOINER (1)
 #define FIBER_DETACH_WAIT_TO_JOIN (2)
 #define FIBER_DETACH_DETACHED (3)
+// the finished fiber is handing its result to the joiner parked in join_info
+#define FIBER_DETACH_JOINED (4)
 
 typedef struct fiber {
   volatile fiber_state_t state;
